@@ -159,13 +159,48 @@ pub fn gen_case(seed: u64, family: &str, tier: Tier) -> Case {
         simcfg.wall_step_rate = 0.0;
     }
     let workers = r.range(1, 6) as usize;
+    // round 8 (a stream of its own): flat roads - a grade of exactly zero in the table -, interpolation grids of
+    // other sizes up to some ten thousand cells, and an application that is built from inside the worker pool
+    let mut r8 = Rng::new(seed ^ fnv64("C08-round8"));
+    if r8.chance(0.4) {
+        let flat: Vec<usize> = (0..w.grades.len()).filter(|_| r8.chance(0.4)).collect();
+        for e in flat {
+            w.grades[e] = 0.0;
+        }
+    }
+    if let Traversal::Energy { vehicles, .. } = &mut w.traversal {
+        for v in vehicles.iter_mut() {
+            if v.interpolate {
+                v.interp_bins = match r8.below(if family == "load" { 12 } else { 40 }) {
+                    0 => Some((128, 64)),
+                    1 | 2 => Some((5, 3)),
+                    3 | 4 => Some((41, 17)),
+                    _ => None,
+                };
+            }
+        }
+    }
+    let build_in_pool = family == "load" && r8.chance(0.5);
+    if family == "load" {
+        if let Traversal::Energy { vehicles, .. } = &w.traversal {
+            if vehicles.iter().any(|v| v.interp_bins.map_or(false, |b| b.0 * b.1 >= 4096)) {
+                // a grid of thousands of cells is filled inside the explored phase: some hundred scheduling points
+                // per model call would take the run to its step budget - preemption at system calls only there,
+                // and a budget that fits the work (C08 is not the property that speaks about bounds)
+                simcfg.alloc_every = 0;
+                simcfg.atomic_every = 0;
+                simcfg.atomic_load_every = 0;
+                simcfg.max_steps = 30_000_000;
+            }
+        }
+    }
     if batch.len() >= 2 && r.chance(0.25) {
         // two caller threads share the application and its prediction caches: each runs half of the queries
         let k = batch.len() / 2;
         let batches = vec![batch[..k].to_vec(), batch[k..].to_vec()];
-        return Case { check: "C08".into(), seed, family: family.to_string(), world: w, batches, workers, run_parallelism: None, simcfg, recorded: None, params: json!({"two_callers": true}) };
+        return Case { check: "C08".into(), seed, family: family.to_string(), world: w, batches, workers, run_parallelism: None, simcfg, recorded: None, params: json!({"two_callers": true, "build_in_pool": build_in_pool}) };
     }
-    Case { check: "C08".into(), seed, family: family.to_string(), world: w, batches: vec![batch], workers, run_parallelism: None, simcfg, recorded: None, params: Value::Null }
+    Case { check: "C08".into(), seed, family: family.to_string(), world: w, batches: vec![batch], workers, run_parallelism: None, simcfg, recorded: None, params: if build_in_pool { json!({"build_in_pool": true}) } else { Value::Null } }
 }
 
 fn load_uncached(v: &VehicleCfg, model: &str, rate_unit: EnergyRateUnit) -> Result<PredictionModelRecord, String> {
@@ -193,10 +228,10 @@ fn load_uncached(v: &VehicleCfg, model: &str, rate_unit: EnergyRateUnit) -> Resu
         underlying_model_type: Box::new(ModelType::Smartcore),
         speed_lower_bound: Speed::new(0.0),
         speed_upper_bound: Speed::new(s_hi),
-        speed_bins: 21,
+        speed_bins: v.interp_bins.map_or(21, |b| b.0),
         grade_lower_bound: Grade::new(-g_hi),
         grade_upper_bound: Grade::new(g_hi),
-        grade_bins: 9,
+        grade_bins: v.interp_bins.map_or(9, |b| b.1),
     };
     load_prediction_model(v.name.clone(), &model.to_string(), model_type, speed_unit, grade_unit, rate_unit, None, v.adjustment, None).map_err(|e| e.to_string())
 }
